@@ -42,3 +42,13 @@ Theorem C15_partner_lists_change_only_by_registration :
   /\ cw_has coupling_writes "other.non_covalently_coupled_groups"%string "self"%string = true.
 Proof. vm_compute. repeat split. Qed.
 Print Assumptions C15_coupling_symmetric.
+
+(* exact characterisation (stronger than symmetry): after ANY sequence of registrations the partners of x are exactly the groups that
+   were registered together with x, in either role — nobody else is ever marked, nobody registered is ever lost — and each partner
+   is listed once (so a determinant row has one reason for its star per partner) *)
+Theorem C15_partners_are_exactly_the_registered : forall (ops : list (nat * nat)) x y,
+  In y (couple_all ops x) <-> exists a b, In (a, b) ops /\ ((x = a /\ y = b) \/ (x = b /\ y = a)).
+Proof. exact partners_are_the_registered. Qed.
+Theorem C15_partners_listed_once : forall (ops : list (nat * nat)) x, NoDup (couple_all ops x).
+Proof. exact partners_listed_once. Qed.
+Print Assumptions C15_partners_are_exactly_the_registered.
